@@ -13,7 +13,7 @@ RULES = {
     'C15.R2': 'normalisation divides a row and its bias by the same positive norm sqrt(sum x^2), used only under norm > eps',
     'C15.R3': 'guard directions: all-zero row dropped only under bias >= 0 (else canonical empty); duplicate only if rows AND biases compare equal; redundant only in the Optimal arm under a_i·p <= b_i + eps for objective -a_i over the other rows; Unbounded keeps, Error -> Err, Infeasible -> empty',
 }
-FLOORS = {'C15.R5': 5, 'C15.R4': 3, 'C15.R1': 7, 'C15.R2': 1, 'C15.R3': 7}
+FLOORS = {'C15.R5': 5, 'C15.R4': 3, 'C15.R1': 7, 'C15.R2': 1, 'C15.R3': 8}
 EXPLANATION = 'Provenance and guard rules: a clean-up can only drop rows of the input, and drops one only under the stated test.'
 DOES_NOT_DECIDE = 'set equality (whether a dropped row was really implied: the LP answer and relative_eq\'s tolerance), minimality of the result'
 PASS_THROUGH = {'Iterator::enumerate', 'Iterator::filter', 'Iterator::filter_map', 'Iterator::map', 'Itertools::collect_vec', 'Iterator::collect', 'Iterator::zip', 'Iterator::rev'}
@@ -622,6 +622,12 @@ def redundant(ctx, F):
                 and lhs[2][1][0] == 'vfield' and lhs[2][1][2] == 'Optimal'
             bound_ok = rhs[0] == 'bin' and rhs[1] == 'Add' and is_call(rhs[2], 'Index::index') and rhs[2][2][0] == ('field', ('param', 'self'), 'bias') and s(rhs[2][2][1]) == s(i)
             pushed_ok = s(R.call_args(pb)[1]) == s(i)
+            # the slack is a constant no larger than the crate's membership tolerance (contains: 1e-8): with a wider one a row that is
+            # necessary by more than the tolerance is dropped and the point set grows
+            slack = s(rhs[3]) if bound_ok else None
+            slack_ok = bool(slack) and slack[0] == 'const' and isinstance(slack[1], float) and 0.0 <= slack[1] <= 1e-8
+            (ctx.ok if slack_ok else ctx.bad)('C15.R3', site + '#slack', 'the slack of the redundancy test is a constant in [0, 1e-8] (f64::EPSILON on the pinned tree)' if slack_ok else
+                                             'the slack added to b_i in the redundancy test is not a constant in [0, 1e-8] (found %s): rows necessary by more than the membership tolerance are dropped' % (slack,), b.span)
             ok = dot_ok and bound_ok and pushed_ok and not stray
     (ctx.ok if ok else ctx.bad)('C15.R3', site + '#mark', 'row i marked redundant only in the Optimal arm under a_i·p <= b_i + eps (same i for row, bound and mark)' if ok else
                                 'a row is marked redundant outside "Optimal and a_i·p <= b_i + eps" for its own index', b.span)
